@@ -169,7 +169,7 @@ func init() {
 			"with and without LRU/LFU, a third of the histories with the real janitor at 1ms and a count limit (evictions recorded at its cache_evict call-out); call/return stamped from one atomic logical clock at the client boundary with seeded delays; " +
 			"porcupine NondeterministicModel per key (batch ops, evictions and partner writes inserted into every affected key's partition) + walk monitor (reported tokens were written under the key; keys stable during the walk reported exactly once); " +
 			"distinct_nontrivial = distinct histories (hash of the per-key outcome patterns) containing at least one pair of real-time-concurrent conflicting operations on one key",
-		Required:    []string{"histories", "partitions.ok", "histories.concurrent_conflict", "ops.read", "ops.write", "ops.delete", "ops.expireall", "ops.deleteall", "ops.walk", "walk.stable_keys.checked", "bulkwalk.cases", "evictions.recorded", "cleanup_cycles.recorded", "kind.ShardedMap", "kind.SyncMap", "kind.ShardedMapOf"},
+		Required:    []string{"histories", "partitions.ok", "histories.concurrent_conflict", "ops.read", "ops.write", "ops.delete", "ops.expireall", "ops.deleteall", "ops.walk", "walk.stable_keys.checked", "bulkwalk.cases", "evictions.recorded", "cleanup_cycles.recorded", "kind.ShardedMap", "kind.SyncMap", "kind.ShardedMapOf", "writes.equal_values_on_colliding_pair"},
 		Assumptions: []string{"a batch operation is modelled as acting on each key at one instant within its call; an eviction cycle as {unchanged, removed} within [previous janitor call-out, cache_evict call-out]", "checker timeout (30s per key partition) = inconclusive"},
 		Timeout:     func(string) time.Duration { return 45 * time.Minute },
 		ChildEnv:    []string{"GOMAXPROCS=8"},
@@ -259,7 +259,7 @@ func c08Case(b *Batch, idx int) {
 	}
 	var wg sync.WaitGroup
 	start := make(chan struct{})
-	var tokN int64
+	var tokN, equalVals int64
 	for c := 0; c < clients; c++ {
 		wg.Add(1)
 		go func(c int) {
@@ -299,6 +299,10 @@ func c08Case(b *Batch, idx int) {
 					}
 				case p < prof[1]:
 					tok := fmt.Sprintf("k%d/w/%d", ki, atomic.AddInt64(&tokN, 1))
+					if collide && ki < 2 && r.Intn(4) == 0 {
+						tok = fmt.Sprintf("e/%d", r.Intn(2)) // equal values under the two colliding keys
+						atomic.AddInt64(&equalVals, 1)
+					}
 					exp := r.Intn(100) < prof[5]
 					ctx := cache.WithTTL(bg, time.Hour, false)
 					if exp {
@@ -391,6 +395,7 @@ func c08Case(b *Batch, idx int) {
 	}
 	sort.Slice(all, func(i, j int) bool { return all[i].Call < all[j].Call })
 	desc := fmt.Sprintf("%s/keys=%d/collide=%v/clients=%d/ops=%d/strategy=%d/evict=%v/cleanup=%v", kind, nKeys, collide, clients, opsPer, strat, evict, cleanup)
+	b.R.Count("writes.equal_values_on_colliding_pair", atomic.LoadInt64(&equalVals))
 	witness := func(k int, part []porcupine.Operation) map[string]interface{} {
 		var ops []string
 		for _, o := range part {
@@ -478,7 +483,7 @@ func c08Case(b *Batch, idx int) {
 		b.R.Count("ops.walk", 1)
 		seenByKey := map[int]wSeen{}
 		for _, s := range wv.Seen {
-			if s.Key < 0 || tokKey(s.Tok) != s.Key {
+			if s.Key < 0 || (tokKey(s.Tok) != s.Key && !strings.HasPrefix(s.Tok, "e/")) {
 				b.R.Violate(b, idx, "C08:"+kind+":walk-foreign-entry", fmt.Sprintf("Walk reported key %d with value %q that was never stored under it [%s]", s.Key, s.Tok, desc), nil)
 			}
 			seenByKey[s.Key] = s
